@@ -212,6 +212,7 @@ type vfConn struct {
 	done      chan error
 	lastMilli int64
 	stalled   time.Duration
+	fast      bool // no waiting for a new millisecond between frames: recordings may start and finish within one
 }
 
 // vfStartConn parses the config in dir and runs handleConn on one end of a pipe.
@@ -278,6 +279,9 @@ func (c *vfConn) SendFrame(raw []byte, atBarrier func()) error {
 	}
 	if atBarrier != nil {
 		atBarrier()
+	}
+	if c.fast {
+		return c.Write(raw[len(raw)-1:])
 	}
 	for time.Now().UnixNano()/1e6 <= c.lastMilli {
 		time.Sleep(200 * time.Microsecond)
